@@ -247,9 +247,9 @@ func init() {
 		Assume: []string{"debug.SetPanicOnFault turns a fault on the mapping into a recoverable panic carrying the address"},
 		Plan: func(tier string) []core.Lane {
 			if tier == "thorough" {
-				return []core.Lane{{Lane: "plain", Cases: 40000, Shards: 16, TimeoutS: 3600}, {Lane: "race", Cases: 4000, Shards: 16, TimeoutS: 3600}}
+				return []core.Lane{{Lane: "plain", Cases: 120000, Shards: 16, TimeoutS: 7200}, {Lane: "race", Cases: 10000, Shards: 16, TimeoutS: 3600}}
 			}
-			return []core.Lane{{Lane: "plain", Cases: 2400, Shards: 16, TimeoutS: 1200}}
+			return []core.Lane{{Lane: "plain", Cases: 6000, Shards: 16, TimeoutS: 1200}}
 		},
 		Case: c11Case,
 	})
